@@ -5,7 +5,7 @@ EXTENDS HeaderCodec, TLC, Json
 
 VARIABLE hist   \* exported steps (history; hidden by VIEW in the exhaustive configs)
 
-mcvars == <<pc, h, wire, dec, twin, hist>>
+mcvars == <<pc, h, wire, dec, twin, fe, hist>>
 
 \* type tokens of an encoding, as the harness reads them off real CBOR bytes
 Tok(f) == CASE f.t = "uint" -> (IF f.n = 0 THEN "u0" ELSE "u+")
@@ -28,6 +28,7 @@ DecObs(d) ==
      same_id |-> ~d.err /\ Id(d.inst) = Id(h)]
 
 MCInit == Init /\ hist = <<>>
+MCFailedEncode == FailedEncode /\ UNCHANGED hist
 
 MCSign == Sign /\ hist' = Append(hist, [a |-> "Sign", layout |-> Layout(h'.over), verifies |-> Verify(h')])
 MCEncode == Encode /\ hist' = Append(hist, [a |-> "Encode", layout |-> Layout(wire'), prev |-> PrevOf(wire')])
@@ -39,11 +40,13 @@ MCBuildTwin == Len(dec) = MaxDecodes /\ BuildTwin /\ hist' = Append(hist, [a |->
 MCFinish == Finish /\ UNCHANGED hist
 MCTerminated == Terminated /\ UNCHANGED hist
 
-MCNext == MCSign \/ MCEncode \/ MCDecode \/ MCBuildTwin \/ MCFinish \/ MCTerminated
+MCNext == MCSign \/ MCEncode \/ MCDecode \/ MCBuildTwin \/ MCFinish \/ MCFailedEncode \/ MCTerminated
 
 MCSpec == MCInit /\ [][MCNext]_mcvars
 
-\* Export run: the hidden iteration order is not an observable, and with Canonical = TRUE the
+\* Export run: failed encodings are unobservable in the specification (MCSpec checks the invariants with
+\* them interleaved everywhere), so they are not exported: the replayer inserts them at seeded random
+\* points of every behaviour. The hidden iteration order is not an observable, and with Canonical = TRUE the
 \* exhaustive run (MCSpec) shows that no observable depends on it; one representative order per
 \* decode / twin is therefore enough to export every distinct behaviour (bin/check drops duplicates).
 GenDecode == DecodeWith(Identity(h.v.ext.n)) /\ hist' = Append(hist, DecObs(dec'[Len(dec')]))
@@ -55,7 +58,7 @@ GenBuildTwin == Len(dec) = MaxDecodes /\ BuildTwinWith(Identity(h.v.ext.n))
 GenNext == MCSign \/ MCEncode \/ GenDecode \/ GenBuildTwin \/ MCFinish \/ MCTerminated
 GenSpec == MCInit /\ [][GenNext]_mcvars
 
-NoHistView == <<pc, h, wire, dec, twin>>
+NoHistView == <<pc, h, wire, dec, twin, fe>>
 
 ShapeJson(v) == [size |-> v.size, hash |-> v.hash, seq |-> v.seq, back |-> v.back,
                  kind |-> v.ext.kind, prune |-> v.ext.prune, n |-> v.ext.n]
